@@ -2,8 +2,40 @@ package logger
 
 import (
 	"context"
+	"encoding"
+	"fmt"
 	"log/slog"
+	"reflect"
 )
+
+// safeCall runs f, which calls a method of the logged value v. A method that panics must not
+// take the log call down: for a nil pointer (the usual cause: a typed nil error whose method has
+// a value receiver) it yields "<nil>", otherwise the panic text, like log/slog does.
+func safeCall(v any, f func() string) (s string) {
+	defer func() {
+		if r := recover(); r != nil {
+			if rv := reflect.ValueOf(v); rv.Kind() == reflect.Pointer && rv.IsNil() {
+				s = "<nil>"
+				return
+			}
+			s = fmt.Sprintf("!PANIC: %v", r)
+		}
+	}()
+	return f()
+}
+
+func safeError(err error) string { return safeCall(err, err.Error) }
+
+func safeMarshalText(m encoding.TextMarshaler) (data []byte, err error) {
+	s := safeCall(m, func() string {
+		data, err = m.MarshalText()
+		return ""
+	})
+	if s != "" {
+		return []byte(s), nil
+	}
+	return data, err
+}
 
 // Options is the common options for all handlers.
 type Options struct {
